@@ -420,6 +420,302 @@ static void fam_c02_hugeremote(G& g, Plan& p) {
   for (int t = 1; t < nt; t++) for (int i = 0; i < n; i++) if (g.chance(0.7)) p.progs[(size_t)t].ops.push_back(mk(OP_free, (int)g.below((uint64_t)n)));
 }
 
+
+// ---------------------------------------------------------------------------------
+// C08: remotely freed memory is never lost
+// ---------------------------------------------------------------------------------
+static size_t class_req(G& g, size_t maxbin) { auto bs = bin_sizes(); size_t b = bs[g.below(maxbin)]; return (g.padded && b > 8) ? b - 8 : b; }
+
+// owner allocates N blocks, remotes free them under an adversarial schedule while the owner keeps working; then the heap must be empty
+static void fam_c08_drain(G& g, Plan& p) {
+  int nt = 2 + (int)g.below(3);
+  int ncls = 1 + (int)g.below(3); std::vector<size_t> cls; for (int i = 0; i < ncls; i++) cls.push_back(class_req(g, g.chance(0.8) ? 40 : 52));
+  int n = 30 + (int)g.below(220);
+  int extra = 30;
+  p.nslots = n + extra; p.progs.resize((size_t)nt);
+  Program& P0 = p.progs[0];
+  int hs = g.chance(0.5) ? 0 : -1;           // non-default heap: "holds no live pages" is observable without the backing heap's own descriptors
+  if (hs >= 0) P0.ops.push_back(mkh(OP_heap_new, 0));
+  for (int i = 0; i < n; i++) { Op o = mk(g.chance(0.1) ? OP_zalloc : OP_malloc, i, cls[g.below(cls.size())]); o.hslot = hs; P0.ops.push_back(o); }
+  spawn_all(p, nt, true, g);
+  // owner activity while the remotes free
+  int act = 10 + (int)g.below(120);
+  for (int i = 0; i < act; i++) {
+    int k = (int)g.below(10); int s = n + (int)g.below((uint64_t)extra);
+    if (k < 4) { Op o = mk(OP_malloc, s, cls[g.below(cls.size())]); o.hslot = hs; P0.ops.push_back(o); }
+    else if (k < 7) P0.ops.push_back(mk(OP_free, s));
+    else if (k < 8) P0.ops.push_back(mkh(OP_heap_collect, hs, -1, g.below(2)));
+    else if (k < 9) { Op o = mk(OP_malloc, s, 9000 + g.below(40000)); o.hslot = hs; P0.ops.push_back(o); }   // generic path
+    else P0.ops.push_back(mk(OP_free, (int)g.below((uint64_t)n)));    // the owner frees some itself
+  }
+  // every slot 0..n-1 is freed by exactly one remote (or by the owner at the end)
+  for (int i = 0; i < n; i++) { int t = 1 + (int)g.below((uint64_t)nt - 1); p.progs[(size_t)t].ops.push_back(mk(OP_free, i)); }
+  for (int t = 1; t < nt; t++) { auto& ops = p.progs[(size_t)t].ops; if (g.chance(0.6)) for (size_t i = ops.size(); i > 1; i--) std::swap(ops[i - 1], ops[g.below(i)]); }
+  for (int t = 1; t < nt; t++) P0.ops.push_back(mk(OP_join, t));
+  int keep = (int)g.below(3);   // 0: free everything; else keep a few blocks live
+  for (int i = 0; i < n + extra; i++) { if (keep && i >= n && g.chance(0.3)) continue; P0.ops.push_back(mk(OP_free, i)); }
+  P0.ops.push_back(mkh(OP_expect_empty_heap, hs, -1, g.below(2)));
+}
+
+// long producer/consumer: bounded number of live blocks, memory must stay bounded
+static void fam_c08_prodcons(G& g, Plan& p) {
+  int L = 8 + (int)g.below(120);
+  int ncls = 1 + (int)g.below(2); std::vector<size_t> cls; for (int i = 0; i < ncls; i++) cls.push_back(class_req(g, 44));
+  int R = g.pick({500, 2000, 6000});
+  int ncons = 1 + (int)g.below(2);
+  p.nslots = L; p.progs.resize((size_t)(1 + ncons));
+  p.sample_verify = false;
+  size_t maxb = 0; for (auto c : cls) if (c > maxb) maxb = c;
+  size_t per_page = (64 * KiB) / (maxb + 16); if (per_page < 1) per_page = 1;
+  uint64_t bound = 4 * ((uint64_t)((size_t)L + per_page - 1) / per_page + (uint64_t)ncls + 2);
+  Program& P0 = p.progs[0];
+  spawn_all(p, 1 + ncons, false, g);
+  for (int r = 0; r < R; r++) {
+    P0.ops.push_back(mk(OP_malloc, r % L, cls[(size_t)r % cls.size()]));
+    if (r % 50 == 49) P0.ops.push_back(mk(OP_pc_sample, -1, bound, (uint64_t)L));
+    if (g.chance(0.002)) P0.ops.push_back(mk(OP_collect, -1, 0));
+  }
+  for (int c = 1; c <= ncons; c++) for (int r = 0; r < R; r++) p.progs[(size_t)c].ops.push_back(mk(OP_free, (r * ncons + c - 1) % L));
+  for (int c = 1; c <= ncons; c++) P0.ops.push_back(mk(OP_join, c));
+  P0.ops.push_back(mk(OP_pc_sample, -1, bound, (uint64_t)L));
+  P0.ops.push_back(mk(OP_free_all));
+  P0.ops.push_back(mkh(OP_expect_empty_heap, -1, -1, 1));
+  p.cfg.max_run_steps = 200000000ull;
+}
+
+// ---------------------------------------------------------------------------------
+// C09: thread exit, abandonment, adoption
+// ---------------------------------------------------------------------------------
+static void c09_options(G& g, Plan& p) {
+  if (g.chance(0.5)) set_env(p, "ABANDONED_RECLAIM_ON_FREE", g.pick({0, 1}));
+  if (g.chance(0.3)) set_env(p, "TARGET_SEGMENTS_PER_THREAD", g.pick({0, 2, 4}));
+  if (g.chance(0.2)) set_env(p, "MAX_SEGMENT_RECLAIM", g.pick({10, 100}));
+  if (g.chance(0.2)) set_env(p, "ABANDONED_PAGE_PURGE", 1);
+  if (g.chance(0.6)) set_env(p, "VISIT_ABANDONED", 1);
+  int k = (int)g.below(10);
+  if (k < 2) set_env(p, "DISALLOW_ARENA_ALLOC", 1);        // OS-allocated abandoned segments: the lock-protected list
+  else if (k < 3) set_env(p, "ARENA_RESERVE", "0");
+  else if (k < 4) set_env(p, "ARENA_RESERVE", "64MiB");
+}
+
+static void fam_c09_exit(G& g, Plan& p) {
+  c09_options(g, p);
+  int nt = 3 + (int)g.below(3);
+  p.nslots = 30 + (int)g.below(150); p.progs.resize((size_t)nt);
+  int mix = SM_SMALL | SM_BOUNDARY | (g.chance(0.6) ? SM_MEDIUM : 0) | (g.chance(0.4) ? SM_LARGE : 0) | (g.chance(0.1) ? SM_HUGE : 0);
+  bool two_sub = g.chance(0.15);
+  Program& P0 = p.progs[0];
+  if (two_sub) P0.ops.push_back(mk(OP_subproc_new, 0));
+  int late = g.chance(0.5) ? nt - 1 : 0;    // one thread is spawned late (possibly re-using the id of an exited thread) and adopts
+  for (int t = 1; t < nt; t++) { if (t == late) continue; P0.ops.push_back(mk(OP_spawn, t)); }
+  for (int t = 0; t < nt; t++) {
+    Program& P = p.progs[(size_t)t];
+    if (t > 0) { P.explicit_done = g.chance(0.5); P.reuse_id = g.chance(0.5); }
+    if (two_sub && t > 0 && (t % 2) == 1) P.ops.push_back(mk(OP_subproc_add, 0));
+    int nops = 20 + (int)g.below(100);
+    for (int i = 0; i < nops; i++) {
+      int slot = (int)g.below((uint64_t)p.nslots); int k = (int)g.below(100);
+      if (k < 38) P.ops.push_back(mk(OP_free, slot));
+      else if (k < 42) P.ops.push_back(mk(OP_collect, -1, g.below(2)));
+      else if (k < 44) P.ops.push_back(mk(OP_realloc, slot, gen_size(g, mix & ~SM_HUGE)));
+      else if (k < 45 && t > 0) P.ops.push_back(mk(OP_thread_done));
+      else if (k < 46) P.ops.push_back(mk(OP_collect_reduce, -1, g.pick<uint64_t>({0, 32 * MiB, 64 * MiB})));
+      else if (k < 47) P.ops.push_back(mk(OP_check_owner, slot));
+      else P.ops.push_back(mk(g.chance(0.1) ? OP_zalloc : OP_malloc, slot, gen_size(g, mix)));
+      if (t == 0 && late && i == nops / 2) { P.ops.push_back(mk(OP_join, 1)); P.ops.push_back(mk(OP_spawn, late, 0, 1)); }
+    }
+  }
+  for (int t = 1; t < nt; t++) P0.ops.push_back(mk(OP_join, t));
+  P0.ops.push_back(mk(OP_verify_all));
+  P0.ops.push_back(mk(OP_census));
+  P0.ops.push_back(mk(OP_visit_abandoned, -1, g.below(1000)));
+  P0.ops.push_back(mk(OP_free_all));
+  P0.ops.push_back(mk(OP_giveback_check, -1, 4));
+}
+
+// several threads leave abandoned segments; a fresh thread allocates from user heaps until those reclaim; then deletes/destroys them
+static void fam_c09_userheap_adopter(G& g, Plan& p) {
+  if (g.chance(0.5)) set_env(p, "VISIT_ABANDONED", 1);
+  if (g.chance(0.3)) set_env(p, "ABANDONED_RECLAIM_ON_FREE", 1);
+  if (g.chance(0.3)) set_env(p, "MAX_SEGMENT_RECLAIM", 100);
+  int nleave = 2 + (int)g.below(3);
+  int nt = 1 + nleave + 1;
+  int per = 2 + (int)g.below(6);
+  p.nslots = nleave * per + 60; p.progs.resize((size_t)nt);
+  Program& P0 = p.progs[0];
+  for (int t = 1; t <= nleave; t++) P0.ops.push_back(mk(OP_spawn, t));
+  for (int t = 1; t <= nleave; t++) {
+    Program& P = p.progs[(size_t)t]; P.explicit_done = g.chance(0.5);
+    for (int i = 0; i < per; i++) P.ops.push_back(mk(OP_malloc, (t - 1) * per + i, g.chance(0.7) ? 500 + g.below(2000) : gen_size(g, SM_SMALL | SM_MEDIUM)));
+    P.ops.push_back(mk(OP_barrier, 1, (uint64_t)nleave));     // several distinct abandoned segments exist at the same time
+  }
+  for (int t = 1; t <= nleave; t++) P0.ops.push_back(mk(OP_join, t));
+  int ad = nleave + 1;
+  P0.ops.push_back(mk(OP_spawn, ad));
+  Program& A = p.progs[(size_t)ad];
+  int base = nleave * per;
+  int kind = (int)g.below(3);
+  if (kind == 0) A.ops.push_back(mkh(OP_heap_new, 0));
+  else if (kind == 1) { Op o = mkh(OP_heap_new_ex, 0, -1, 0, g.below(2)); A.ops.push_back(o); }
+  else A.ops.push_back(mkh(OP_heap_new, 0));
+  int nbig = 3 + (int)g.below(6);
+  for (int i = 0; i < nbig; i++) { Op o = mk(OP_malloc, base + i, (g.chance(0.7) ? 8 : 3) * MiB + g.below(2 * MiB)); o.hslot = 0; A.ops.push_back(o); A.ops.push_back(mk(OP_check_owner, (int)g.below((uint64_t)base))); }
+  for (int i = 0; i < 10; i++) { Op o = mk(OP_malloc, base + 20 + i, 500 + g.below(2000)); o.hslot = 0; A.ops.push_back(o); }
+  A.ops.push_back(mkh(OP_visit_heap, 0, -1, g.below(100)));
+  for (int i = 0; i < base; i++) if (g.chance(0.3)) A.ops.push_back(mk(OP_check_owner, i));
+  A.ops.push_back(mkh(g.chance(0.6) ? OP_heap_destroy : OP_heap_delete, 0));
+  A.ops.push_back(mk(OP_verify_all));
+  for (int i = 0; i < 20; i++) A.ops.push_back(mk(OP_malloc, base + 30 + i, 500 + g.below(2000)));   // would re-issue the addresses of wrongly freed blocks
+  A.ops.push_back(mk(OP_verify_all));
+  P0.ops.push_back(mk(OP_join, ad));
+  P0.ops.push_back(mk(OP_verify_all));
+  P0.ops.push_back(mk(OP_census));
+  P0.ops.push_back(mk(OP_free_all));
+  P0.ops.push_back(mk(OP_giveback_check, -1, 4));
+}
+
+// ---------------------------------------------------------------------------------
+// C10: first-class heaps
+// ---------------------------------------------------------------------------------
+static void fam_c10_single(G& g, Plan& p) {
+  p.nslots = 60 + (int)g.below(120); p.progs.resize(1); Program& P = p.progs[0];
+  int nh = 4; int nops = 60 + (int)g.below(250);
+  int mix = SM_SMALL | SM_BOUNDARY | (g.chance(0.5) ? SM_MEDIUM : 0) | (g.chance(0.3) ? SM_LARGE : 0) | (g.chance(0.1) ? SM_HUGE : 0);
+  bool ex = g.chance(0.25);
+  for (int i = 0; i < nops; i++) {
+    int slot = (int)g.below((uint64_t)p.nslots); int k = (int)g.below(100);
+    if (k < 22) heap_ops_mix(g, P, nh, ex);
+    else if (k < 45) P.ops.push_back(gen_free(g, slot));
+    else if (k < 52) P.ops.push_back(gen_realloc(g, slot, mix & ~SM_HUGE, nh, false));
+    else if (k < 58) P.ops.push_back(mk(OP_check_owner, slot));
+    else if (k < 61) P.ops.push_back(mkh(OP_visit_heap, g.chance(0.3) ? -1 : (int)g.below((uint64_t)nh), -1, g.below(100)));
+    else { Op o = gen_alloc(g, slot, mix, nh, true); if (g.chance(0.5)) o.hslot = (int)g.below((uint64_t)nh); P.ops.push_back(o); }
+  }
+  P.ops.push_back(mk(OP_verify_all));
+}
+
+// remotes free blocks of heap H while the owner deletes / collects / destroys heaps or exits
+static void fam_c10_concurrent(G& g, Plan& p) {
+  int nt = 2 + (int)g.below(3);
+  size_t req = class_req(g, 40);
+  size_t per_page = (64 * KiB) / (req + 16); if (per_page > 150) per_page = 150; if (per_page < 2) per_page = 2;
+  int n = (int)per_page * (1 + (int)g.below(2)) + (int)g.below(per_page);
+  p.nslots = n + 40; p.progs.resize((size_t)nt);
+  Program& P0 = p.progs[0];
+  P0.ops.push_back(mkh(OP_heap_new, 0)); P0.ops.push_back(mkh(OP_heap_new, 1));
+  for (int i = 0; i < n; i++) { Op o = mk(OP_malloc, i, req); o.hslot = 0; P0.ops.push_back(o); }
+  for (int i = 0; i < 6; i++) { Op o = mk(OP_malloc, n + i, req); o.hslot = 1; P0.ops.push_back(o); }
+  spawn_all(p, nt, true, g);
+  for (int i = 0; i < n; i++) { int t = 1 + (int)g.below((uint64_t)nt - 1); if (g.chance(0.85)) p.progs[(size_t)t].ops.push_back(mk(OP_free, i)); }
+  int what = (int)g.below(4);
+  for (int i = 0; i < (int)g.below(6); i++) { Op o = mk(OP_malloc, n + 10 + i, req); o.hslot = 0; P0.ops.push_back(o); }
+  if (what == 0) P0.ops.push_back(mkh(OP_heap_delete, 0));
+  else if (what == 1) { P0.ops.push_back(mkh(OP_heap_collect, 0, -1, g.below(2))); P0.ops.push_back(mkh(OP_heap_delete, 0)); }
+  else if (what == 2) { P0.ops.push_back(mkh(OP_heap_destroy, 1)); P0.ops.push_back(mkh(OP_heap_delete, 0)); }
+  else { P0.ops.push_back(mkh(OP_heap_set_default, 0)); P0.ops.push_back(mkh(OP_heap_delete, 0)); }
+  // right after the delete: blocks of sizeof(mi_heap_t)'s size class; a late push into the freed heap descriptor shows as a pattern mismatch
+  for (int i = 0; i < 8; i++) P0.ops.push_back(mk(OP_malloc, n + 20 + i, 2800 + g.below(600)));
+  for (int i = 0; i < 6; i++) P0.ops.push_back(mk(OP_check_owner, (int)g.below((uint64_t)n)));
+  for (int t = 1; t < nt; t++) P0.ops.push_back(mk(OP_join, t));
+  P0.ops.push_back(mk(OP_verify_all));
+  P0.ops.push_back(mk(OP_free_all));
+  P0.ops.push_back(mkh(OP_expect_empty_heap, -1, -1, 1));
+}
+
+// ---------------------------------------------------------------------------------
+// C11: freed memory is given back
+// ---------------------------------------------------------------------------------
+static void fam_c11_repeat(G& g, Plan& p) {
+  int k = (int)g.below(10);
+  if (k < 3) set_env(p, "DISALLOW_ARENA_ALLOC", 1);
+  else if (k < 5) set_env(p, "ARENA_RESERVE", "64MiB");
+  if (g.chance(0.3)) set_env(p, "ARENA_EAGER_COMMIT", g.pick({0, 1}));
+  int purge = (int)g.below(10);   // 0..6 decommit (default), 7..8 reset, 9 off
+  if (purge >= 9) set_env(p, "PURGE_DELAY", -1); else if (purge >= 7) set_env(p, "PURGE_DECOMMITS", 0);
+  if (g.chance(0.3)) set_env(p, "PURGE_DELAY", g.pick({0, 1, 10}));
+  p.cfg.madv_free_mode = 1;     // every discard is carried out eagerly so that residency is exact
+  int W = (int)g.below(6);      // small, large, huge, aligned-huge, mixed, multi-threaded with thread exit
+  int N = 3 + (int)g.below(6);
+  int nthreads_per_rep = (W == 5) ? 1 + (int)g.below(3) : 0;
+  p.progs.resize((size_t)(1 + N * nthreads_per_rep));
+  p.nslots = 200;
+  Program& P0 = p.progs[0];
+  Rng shape; shape.seed(g.r.next());   // the same workload in every repetition
+  for (int rep = 0; rep < N; rep++) {
+    Rng r2 = shape; G g2(p, 0, g.build); g2.r = r2; g2.padded = g.padded;
+    int n = 20 + (int)g2.below(120);
+    for (int i = 0; i < n; i++) {
+      size_t sz;
+      switch (W) {
+        case 0: sz = gen_size(g2, SM_SMALL | SM_BOUNDARY); break;
+        case 1: sz = gen_size(g2, SM_LARGE | SM_MEDIUM); break;
+        case 2: sz = (i < 6) ? gen_size(g2, SM_HUGE) : gen_size(g2, SM_SMALL); break;
+        case 3: sz = (i < 5) ? 1 + g2.below(3 * MiB) : gen_size(g2, SM_SMALL); break;
+        default: sz = gen_size(g2, SM_SMALL | SM_MEDIUM | SM_LARGE | (i < 3 ? SM_HUGE : 0)); break;
+      }
+      Op o = mk(OP_malloc, i, sz);
+      if (W == 3 && i < 5) { o.code = OP_malloc_aligned; o.b = (size_t)1 << (25 + g2.below(3)); }
+      else if (g2.chance(0.1)) o.code = OP_zalloc;
+      P0.ops.push_back(o);
+    }
+    for (int t = 0; t < nthreads_per_rep; t++) {
+      int pi = 1 + rep * nthreads_per_rep + t;
+      Program& P = p.progs[(size_t)pi]; P.explicit_done = (t % 2) == 0;
+      int m = 10 + (int)g2.below(60);
+      for (int i = 0; i < m; i++) { int s = 130 + t * 20 + (int)g2.below(20); P.ops.push_back(g2.chance(0.55) ? mk(OP_malloc, s, gen_size(g2, SM_SMALL | SM_MEDIUM | SM_LARGE)) : mk(OP_free, g2.chance(0.3) ? (int)g2.below(120) : s)); }
+      P0.ops.push_back(mk(OP_spawn, pi));
+    }
+    for (int t = 0; t < nthreads_per_rep; t++) P0.ops.push_back(mk(OP_join, 1 + rep * nthreads_per_rep + t));
+    P0.ops.push_back(mk(OP_verify_all));
+    P0.ops.push_back(mk(OP_free_all));
+    P0.ops.push_back(mk(OP_footprint_mark));
+  }
+  uint64_t fl = 0;
+  if (purge >= 7) fl |= 2;
+  P0.ops.push_back(mk(OP_giveback_check, -1, fl));
+}
+
+// ---------------------------------------------------------------------------------
+// C18: purge by time, no forced collect
+// ---------------------------------------------------------------------------------
+static void fam_c18_purge(G& g, Plan& p) {
+  long delay = g.pick({-1, 0, 5, 10, 10, 100});
+  long mult = g.pick({1, 10, 10}); long ext = g.pick({0, 1, 1});
+  set_env(p, "PURGE_DELAY", delay); set_env(p, "ARENA_PURGE_MULT", mult); set_env(p, "PURGE_EXTEND_DELAY", ext);
+  if (g.chance(0.3)) set_env(p, "PURGE_DECOMMITS", 0);
+  p.progs.resize(1); p.nslots = 120; Program& P = p.progs[0];
+  p.cfg.tick_ns = 0;
+  int W = (int)g.below(3);    // 0: pages inside a segment that stays in use, 1: whole segments, 2: both, then everything
+  // a small block that stays live: ordinary small activity re-uses its page instead of carving up freed spans
+  P.ops.push_back(mk(OP_malloc, 100, 64));
+  int nwatch = 0, nsent = 0;
+  if (W == 0 || W == 2) {
+    int n = 6 + (int)g.below(10);
+    for (int i = 0; i < n; i++) P.ops.push_back(mk(OP_malloc, i, 200 * KiB + g.below(800 * KiB)));     // one block per (large) page, all in the first segment
+    nwatch = n - 4; nsent = 4;
+  }
+  int nhuge = 0;
+  if (W == 1 || W == 2) { nhuge = 2 + (int)g.below(3); for (int i = 0; i < nhuge; i++) P.ops.push_back(mk(OP_malloc, 40 + i, 17 * MiB + g.below(40 * MiB))); }
+  // free what is to be watched
+  for (int i = 0; i < nwatch; i++) { Op o = mk(OP_free, i); o.flags = OPF_WATCH; P.ops.push_back(o); if (delay == 0) P.ops.push_back(mk(OP_purge_check, -1, 1, 0)); }
+  for (int i = 0; i < nhuge; i++) { Op o = mk(OP_free, 40 + i); o.flags = OPF_WATCH; P.ops.push_back(o); if (delay == 0) P.ops.push_back(mk(OP_purge_check, -1, 1, 0)); }
+  // activity rounds: never a forced collect
+  uint64_t span_wait = (uint64_t)(delay > 0 ? delay : 0) + (uint64_t)ext + 2;
+  uint64_t arena_wait = (uint64_t)(delay > 0 ? delay : 0) * (uint64_t)mult + 2;
+  uint64_t wait = (nhuge ? (arena_wait > span_wait ? arena_wait : span_wait) : span_wait);
+  int rounds = 3;
+  for (int r = 0; r < rounds; r++) {
+    P.ops.push_back(mk(OP_advance, -1, wait + g.below(5)));
+    if (nsent > 0 && r < nsent) { Op o = mk(OP_free, nwatch + r); o.flags = OPF_SENTINEL; P.ops.push_back(o); }
+    P.ops.push_back(mk(OP_collect, -1, 0));
+    for (int i = 0; i < 4; i++) { P.ops.push_back(mk(OP_malloc, 101 + i, 48 + g.below(16))); }
+    for (int i = 0; i < 4; i++) P.ops.push_back(mk(OP_free, 101 + i));
+    if (nhuge) { P.ops.push_back(mk(OP_malloc, 60, 17 * MiB + g.below(8 * MiB))); P.ops.push_back(mk(OP_free, 60)); }   // one segment-sized allocate/free
+  }
+  if (delay >= 0) P.ops.push_back(mk(OP_purge_check, -1, 1, (uint64_t)rounds, wait * (uint64_t)rounds));
+  if (delay < 0) { P.ops.push_back(mk(OP_free_all)); P.ops.push_back(mk(OP_collect, -1, 1)); P.ops.push_back(mk(OP_purge_check, -1, 2)); }
+}
+
 // ---------------------------------------------------------------------------------
 // registry
 // ---------------------------------------------------------------------------------
@@ -434,6 +730,14 @@ static const FamilyDef FAMILIES[] = {
   {"c02_ownercollect", "C02", fam_c02_ownercollect, 1, true},
   {"c02_manypushers", "C02", fam_c02_manypushers, 1, true},
   {"c02_hugeremote", "C02", fam_c02_hugeremote, 1, true},
+  {"c08_drain", "C08", fam_c08_drain, 1, true},
+  {"c08_prodcons", "C08", fam_c08_prodcons, 0, true},
+  {"c09_exit", "C09", fam_c09_exit, 0, true},
+  {"c09_userheap_adopter", "C09", fam_c09_userheap_adopter, 0, true},
+  {"c10_single", "C10", fam_c10_single, 1, false},
+  {"c10_concurrent", "C10", fam_c10_concurrent, 1, true},
+  {"c11_repeat", "C11", fam_c11_repeat, 0, true},
+  {"c18_purge", "C18", fam_c18_purge, 0, false},
 };
 
 std::vector<std::string> family_list() { std::vector<std::string> v; for (auto& f : FAMILIES) v.push_back(f.name); return v; }
